@@ -200,7 +200,7 @@ FnDocVals == {I(1), I(-1), Half, S(cAB), S(cEmpty), A0, A3(I(2), Half, I(-1)), A
 DocsFnNest == {O2(cA, x, cB, y) : x \in FnDocVals, y \in {A2(O1(cA, I(-1)), O1(cA, S(cA))), A2(I(1), S(cAB)), O1(cA, I(1)), A0, A2(A1(I(1)), A1(I(2)))}} \cup FnDocVals
 
 (* C10: the full matrix name x arity x argument-type tuple, decoded from the index *)
-Reps == <<Lit(Null), Lit(Bool(TRUE)), Lit(I(0)), Lit(S(cA)), Lit(A0), Lit(A1(I(1))), Lit(A1(S(cA))), Lit(A2(I(1), S(cA))), Lit(O0), Lit(O1(cA, I(1))), Ref(fA)>>
+Reps == <<Lit(Null), Lit(Bool(TRUE)), Lit(I(0)), Lit(S(cA)), Lit(A0), Lit(A1(I(1))), Lit(A1(S(cA))), Lit(A2(A1(I(1)), O0)), Lit(O0), Lit(O1(cA, I(1))), Ref(fA)>>
 NR == Len(Reps)
 MxNames == <<"abs", "avg", "ceil", "contains", "ends_with", "floor", "join", "keys", "length", "map", "max", "max_by", "merge", "min", "min_by",
              "not_null", "reverse", "sort", "sort_by", "starts_with", "sum", "to_array", "to_string", "to_number", "type", "values">>
@@ -220,7 +220,7 @@ MxTotal == MxNNames * TupCount(MaxArity)
 MxAt(i) == Fn(MxNameCps((i \div TupCount(MaxArity)) + 1), TupAt(i % TupCount(MaxArity)))
 (* the same matrix with the arguments taken from document fields (JSON representatives only) *)
 MxDocL1 == SetToSeq(UNION {{Fn(MxNameCps(n), SubSeq(<<fA, fB, fC>>, 1, a)) : a \in 0..3} : n \in 1..MxNNames})
-RepVals == {Null, Bool(TRUE), I(0), S(cA), A0, A1(I(1)), A1(S(cA)), A2(I(1), S(cA)), O0, O1(cA, I(1))}
+RepVals == {Null, Bool(TRUE), I(0), S(cA), A0, A1(I(1)), A1(S(cA)), A2(A1(I(1)), O0), O0, O1(cA, I(1))}
 DocsMx == {Obj({<<cA, x>>, <<cB, y>>, <<cC, z>>}) : x \in RepVals, y \in RepVals, z \in (IF Thorough THEN RepVals ELSE {Null, S(cA), A1(I(1))})}
 (* _by functions: key expressions x arrays of length 0..3 *)
 ByElems == {I(1), S(cA), Null, O1(cA, I(1)), O1(cA, S(<<120>>)), O1(cA, Null), O1(cA, I(0))}
